@@ -10,6 +10,51 @@ use std::io::{Read, Write};
 use std::num::NonZeroU64;
 use std::panic::{catch_unwind, AssertUnwindSafe};
 
+/// `--features guard`: every allocation of exactly the LZMA2 range-decoder chunk buffer size (65531 bytes) is placed
+/// directly in front of an inaccessible page, so that a load one byte past the buffer (e.g. by the assembly
+/// direct-bit decoders, which neither Miri nor AddressSanitizer instrument) faults.
+#[cfg(feature = "guard")]
+mod guard_alloc {
+    use std::alloc::{GlobalAlloc, Layout, System};
+    extern "C" {
+        fn mmap(addr: *mut u8, len: usize, prot: i32, flags: i32, fd: i32, off: i64) -> *mut u8;
+        fn mprotect(addr: *mut u8, len: usize, prot: i32) -> i32;
+    }
+    const PAGE: usize = 4096;
+    pub const GUARDED_SIZE: usize = 65531;
+    pub struct Guarded;
+    unsafe impl GlobalAlloc for Guarded {
+        unsafe fn alloc(&self, l: Layout) -> *mut u8 {
+            if l.size() == GUARDED_SIZE && l.align() <= 1 {
+                let body = (l.size() + PAGE - 1) / PAGE * PAGE;
+                // PROT_READ|PROT_WRITE = 3, MAP_PRIVATE|MAP_ANONYMOUS = 0x22
+                let p = mmap(std::ptr::null_mut(), body + PAGE, 3, 0x22, -1, 0);
+                if p as isize == -1 {
+                    return std::ptr::null_mut();
+                }
+                mprotect(p.add(body), PAGE, 0);
+                return p.add(body - l.size());
+            }
+            System.alloc(l)
+        }
+        unsafe fn alloc_zeroed(&self, l: Layout) -> *mut u8 {
+            if l.size() == GUARDED_SIZE && l.align() <= 1 {
+                return self.alloc(l); // fresh anonymous pages are zero
+            }
+            System.alloc_zeroed(l)
+        }
+        unsafe fn dealloc(&self, p: *mut u8, l: Layout) {
+            if l.size() == GUARDED_SIZE && l.align() <= 1 {
+                return; // leaked on purpose (a handful of buffers per run)
+            }
+            System.dealloc(p, l)
+        }
+    }
+}
+#[cfg(feature = "guard")]
+#[global_allocator]
+static GLOBAL: guard_alloc::Guarded = guard_alloc::Guarded;
+
 struct Rng(u64);
 impl Rng {
     fn new(seed: u64) -> Self {
@@ -359,6 +404,68 @@ fn main() {
                     let idx = idx_cell.get();
                     println!("case {idx} shortchunk-{kind} lzma2 {} c0 len={} enc {}:{:016x}", o.sig(), data.len(), m.len(), fnv(&m));
                     println!("case {idx} cut-chunk-by-{k} dec {}", decode("lzma2", &o, &m, data.len() + 64));
+                }
+            }
+        }
+    }
+    // (2d) one large LZMA2 chunk re-declared with EVERY smaller compressed size in a range, decoded with 7-byte
+    //      reads: the decoder reaches the end of its chunk buffer in every possible state, also inside direct bits
+    {
+        let sweep = std::env::args().nth(2).and_then(|s| s.parse::<u64>().ok()).map(|s| s >= 1000).unwrap_or(false);
+        let o = Opts { dict: 1 << 16, lc: 3, lp: 0, pb: 2, normal: false, nice: 32, bt4: false, depth: 4 };
+        for v in 0..(if thorough || sweep { 6 } else { 2 }) {
+            let mut r = Rng(rng.next());
+            // matches at distances 512..16K (4..8 direct bits) mixed with literals
+            let mut data = gen_data(&mut r, "random", 20_000);
+            while data.len() < 60_000 {
+                let d = r.range(512, 16_000) as usize;
+                let l = r.range(3, 12) as usize;
+                for _ in 0..l {
+                    let x = data[data.len() - d];
+                    data.push(x);
+                }
+                for _ in 0..r.below(3) {
+                    data.push(r.next() as u8);
+                }
+            }
+            if let Ok(c) = encode("lzma2", &o, &data, None) {
+                if c.len() > 3500 && c[0] >= 0x80 {
+                    let hdr = if c[0] >= 0xC0 { 6 } else { 5 };
+                    let comp = ((c[3] as usize) << 8 | c[4] as usize) + 1;
+                    let kmax = if thorough || sweep { 3000 } else { 900 };
+                    let mut digest = 0xcbf29ce484222325u64;
+                    let mut first_lines = 0;
+                    for k in 1..kmax.min(comp - 8) {
+                        let mut m = c[..hdr + comp - k].to_vec();
+                        let nc = comp - k - 1;
+                        m[3] = (nc >> 8) as u8;
+                        m[4] = nc as u8;
+                        m.push(0);
+                        let res = show(catch_unwind(AssertUnwindSafe(|| {
+                            let mut rd = LZMA2Reader::new(m.as_slice(), o.dict, None);
+                            let mut out = Vec::new();
+                            let mut buf = [0u8; 7];
+                            loop {
+                                match rd.read(&mut buf) {
+                                    Ok(0) => return (out, None),
+                                    Ok(n) => out.extend_from_slice(&buf[..n]),
+                                    Err(e) => return (out, Some(kind_of(&e))),
+                                }
+                            }
+                        })));
+                        for b in res.bytes() {
+                            digest = (digest ^ b as u64).wrapping_mul(0x100000001b3);
+                        }
+                        digest = (digest ^ k as u64).wrapping_mul(0x100000001b3);
+                        if k % 100 == 0 || first_lines < 3 {
+                            first_lines += 1;
+                            idx_cell.set(idx_cell.get() + 1);
+                            println!("case {} cutsweep-{v} lzma2 {} c0 len={} enc {}:{:016x}", idx_cell.get(), o.sig(), data.len(), m.len(), digest);
+                            println!("case {} cut-chunk-by-{k}-reads7 dec {res}", idx_cell.get());
+                        }
+                    }
+                    idx_cell.set(idx_cell.get() + 1);
+                    println!("case {} cutsweep-{v}-digest lzma2 {} c0 len={} enc {}:{:016x}", idx_cell.get(), o.sig(), data.len(), kmax, digest);
                 }
             }
         }
